@@ -92,6 +92,55 @@ VH_EXPORT int vp_h17b_split(const unsigned char* in, unsigned char* out) {
 	for (int i = 0; i < 3; i++) if (i < ne && ctx.tags[i] != exp[i]) return 0;
 	return scope.loaded ? target == scope.value : target == 4242;
 }
+// ---- h17d: the string validators PhoneNumber and Email on arbitrary short strings (custom message, so no text is assembled).
+// The oracle is a sandwich stated from the documentation, not a transcription of the loops:
+//   PhoneNumber(min, max, plusRequired): absent -> pass;  pass => only digits, ' ', '-', '(', ')', '+' occur, the number of digits is in
+//   [min, max] (INCLUSIVE), parentheses are balanced, a '+' is present when required;  a "plain" number ('+' followed by digits only,
+//   or digits only when the plus is optional) with min <= digits <= max MUST pass.
+//   Email: absent -> pass; pass => exactly the characters before the first '@' form a non-empty local part, the domain part is
+//   non-empty, contains no '@', does not start or end with '.', '-' ; "a@b" shaped plain addresses (letters '@' letters) MUST pass.
+static constexpr size_t SN = 7;
+VH_EXPORT int vp_h17d_phone(const unsigned char* in, unsigned char* out) {
+	size_t n = in[0] <= SN ? in[0] : SN; const char* p = reinterpret_cast<const char*>(in + 1);
+	size_t mn = in[8] % 9u, mx = in[9] % 9u; bool plus = in[10] & 1, loaded = in[10] & 2;
+	std::string str(p, n);
+	verif_symbolic_phase();
+	auto r = PhoneNumber(mn, mx, plus, M1)(str, loaded);
+	out[0] = r.has_value();
+	if (!loaded) return !r.has_value();
+	size_t digits = 0, open = 0, close = 0, pluses = 0; bool alien = false, plain = true;
+	for (size_t i = 0; i < SN; i++) if (i < n) {
+		char c = p[i];
+		if (c >= '0' && c <= '9') digits++;
+		else if (c == '(') open++; else if (c == ')') close++; else if (c == '+') pluses++;
+		else if (c != ' ' && c != '-') alien = true;
+		if (!((c >= '0' && c <= '9') || (i == 0 && c == '+'))) plain = false;
+	}
+	if (!r.has_value()) return !alien && digits >= mn && digits <= mx && open == close && (!plus || pluses > 0);
+	if (plain && digits >= mn && digits <= mx && (!plus || pluses == 1)) return 0;          // a plain number within the limits must pass
+	return 1;
+}
+VH_EXPORT int vp_h17d_email(const unsigned char* in, unsigned char* out) {
+	size_t n = in[0] <= SN ? in[0] : SN; const char* p = reinterpret_cast<const char*>(in + 1);
+	bool loaded = in[10] & 2;
+	std::string str(p, n);
+	verif_symbolic_phase();
+	auto r = Email(M1)(str, loaded);
+	out[0] = r.has_value();
+	if (!loaded) return !r.has_value();
+	size_t at = SN, ats = 0; bool letters = true;
+	for (size_t i = 0; i < SN; i++) if (i < n) {
+		if (p[i] == '@') { if (ats == 0) at = i; ats++; }
+		else if (!((p[i] >= 'a' && p[i] <= 'z') || (p[i] >= 'A' && p[i] <= 'Z'))) letters = false;
+	}
+	if (!r.has_value()) {
+		if (ats != 1 || at == 0 || at + 1 >= n) return 0;                                   // one '@', non-empty local and domain part
+		char d0 = p[at + 1], dl = p[n - 1];
+		return d0 != '.' && d0 != '-' && dl != '.' && dl != '-' && p[0] != '.' && p[at - 1] != '.';
+	}
+	if (letters && ats == 1 && at > 0 && at + 1 < n) return 0;                                // letters@letters must pass
+	return 1;
+}
 // ---- h17c: the real SerializationContext: errors arrive for 3 paths out of {"/a", "/a/b", "/b", "/ab"} in a symbolic order
 VH_EXPORT int vp_h17c_context(const unsigned char* in, unsigned char* out) {
 	static const char* const paths[4] = { "/a", "/a/b", "/b", "/ab" };
@@ -126,6 +175,8 @@ VH_EXPORT int vp_h17c_context(const unsigned char* in, unsigned char* out) {
 	}
 	return nkeys == distinct;
 }
+//@ OBL {"name": "h17d_phone", "prop": "vp_h17d_phone", "in": 11, "out": 8, "unwind": 9, "fs": 32, "cap_s": 900, "backends": ["default", "kissat"], "bounds": "every string of length <= 7, min/max digits 0..8, plus required or not, loaded or not", "desc": "PhoneNumber validator: passes only well-formed numbers with min <= digits <= max (inclusive); plain numbers within the limits pass"}
+//@ OBL {"name": "h17d_email", "prop": "vp_h17d_email", "in": 11, "out": 8, "unwind": 9, "fs": 32, "cap_s": 900, "backends": ["default", "kissat"], "bounds": "every string of length <= 7, loaded or not", "desc": "Email validator: passes only local@domain shapes; letters@letters passes"}
 //@ OBL {"name": "h17c_context", "prop": "vp_h17c_context", "in": 8, "out": 8, "unwind": 10, "fs": 32, "cap_s": 3600, "bounds": "3 errors over the paths /a, /a/b, /b, /ab in every order and multiplicity (a path that is a prefix of another one included)", "desc": "SerializationContext: ValidationException lists exactly the failing fields, each with exactly its messages in arrival order", "tier": "thorough"}
 //@ OBL {"name": "h17a_required", "prop": "vp_h17a_required", "in": 8, "out": 8, "unwind": 4, "bounds": "every value, both loaded states", "desc": "Required fails iff the field was not loaded"}
 //@ OBL {"name": "h17a_range_i32", "prop": "vp_h17a_range_i32", "in": 25, "out": 8, "unwind": 4, "bounds": "every int32 value / min / max, both loaded states", "desc": "Range<int32>: inclusive bounds, passes when absent"}
@@ -137,3 +188,8 @@ VH_EXPORT int vp_h17c_context(const unsigned char* in, unsigned char* out) {
 //@ OBL {"name": "h17b_split", "prop": "vp_h17b_split", "in": 8, "out": 8, "unwind": 6, "fs": 32, "bounds": "three validators with every combination of verdicts for the loaded / absent case, symbolic loaded flag and value", "desc": "SplitAndSerialize: recorded errors == failing validators in declaration order under <path>/<key>; value loaded regardless"}
 //@ VEC * 0105000000010000000a000000
 //@ VEC * 00ffffffffffffffff0000000000000000ffffffffffffffff00
+//@ VEC h17d_phone 042b313233000000020403
+//@ VEC h17d_phone 0731323334353637070702
+//@ VEC h17d_phone 0628312932330000000802
+//@ VEC h17d_email 0361406200000000000002
+//@ VEC h17d_email 07612e6240632e64000002
